@@ -6,9 +6,11 @@ import re
 import subprocess
 import sys
 
+_VERIF = os.path.dirname(os.path.dirname(os.path.abspath(__file__)))
+
 CHILD = r'''
 import sys, json
-sys.path.insert(0, "/verif")
+sys.path.insert(0, sys.argv.pop(1))
 from harness import tablekit
 op, path, arg = sys.argv[1], sys.argv[2], json.loads(sys.argv[3])
 if op == "create":
@@ -80,9 +82,9 @@ RESUMED = re.compile(r"^(\d+)\s+<\.\.\. (\w+) resumed>(.*)\)\s+=\s+(-?\d+)(.*)$"
 def run_traced(op, path, arg, workdir, env_extra=None):
     out = os.path.join(workdir, f"strace-{op}.txt")
     cmd = ["strace", "-f", "-y", "-s", "0", "-e", "trace=openat,write,pwrite64,writev,fsync,fdatasync,rename,renameat,renameat2,unlink,unlinkat",
-           "-o", out, sys.executable, "-c", CHILD, op, path, json.dumps(arg)]
+           "-o", out, sys.executable, "-c", CHILD, _VERIF, op, path, json.dumps(arg)]
     env = dict(os.environ)
-    env["PYTHONPATH"] = "/verif"
+    env["PYTHONPATH"] = _VERIF + (os.pathsep + env["PYTHONPATH"] if env.get("PYTHONPATH") else "")
     env.update(env_extra or {})
     p = subprocess.run(cmd, capture_output=True, text=True, env=env, timeout=300)
     if p.returncode != 0:
